@@ -23,7 +23,7 @@ def programs(tier, seed):
     pairs = progs.enumerate_programs(2)
     if tier == "quick":
         pairs = [p for p in pairs if any(k in p[0] for k in ("win_", "ord_", "prj_", "join_left", "cat"))]
-        pairs = pairs[::3]
+        pairs = [p for p in pairs if progs.quick_keep(p[0], 3)]
     ps += pairs
     for tr in progs.CURATED:
         src = progs.make(tr)
